@@ -106,21 +106,48 @@ def w1(e: Engine, rep: Report):
     where = getter.qname
     rep.functions.add(where)
 
-    def is_code0(x, seen=()):
-        """x evaluates to self._code[0] (or falsy when there is no code)"""
-        if isinstance(x, ast.Subscript) and \
-                ast.unparse(x.value) in ('self._code', 'self.code') and \
-                isinstance(x.slice, ast.Constant) and x.slice.value == 0:
+    def is_code(x, fnode, seen=()):
+        if ast.unparse(x) in ('self._code', 'self.code'):
             return True
-        if isinstance(x, ast.BoolOp) and isinstance(x.op, ast.And):
-            return is_code0(x.values[-1], seen)
         if isinstance(x, ast.Name) and x.id not in seen:
-            defs = [n.value for n in walk_own(fn)
+            defs = [n.value for n in walk_own(fnode)
                     if isinstance(n, ast.Assign) and any(
                         isinstance(t, ast.Name) and t.id == x.id
                         for t in n.targets)]
-            return bool(defs) and all(is_code0(d, seen + (x.id,))
+            return bool(defs) and all(is_code(d, fnode, seen + (x.id,))
                                       for d in defs)
+        return False
+
+    def is_code0(x, seen=(), fnode=None):
+        """x evaluates to self._code[0] (or falsy when there is no code)"""
+        fnode = fnode or fn
+        if isinstance(x, ast.Constant) and not x.value:
+            return True          # "no class": the caller returns None for it
+        if isinstance(x, ast.Subscript) and is_code(x.value, fnode) and \
+                isinstance(x.slice, ast.Constant) and x.slice.value == 0:
+            return True
+        if isinstance(x, ast.BoolOp) and isinstance(x.op, ast.And):
+            return is_code0(x.values[-1], seen, fnode)
+        if isinstance(x, ast.Name) and x.id not in seen:
+            defs = [n.value for n in walk_own(fnode)
+                    if isinstance(n, ast.Assign) and any(
+                        isinstance(t, ast.Name) and t.id == x.id
+                        for t in n.targets)]
+            return bool(defs) and all(is_code0(d, seen + (x.id,), fnode)
+                                      for d in defs)
+        # a helper of the class that returns the class digit (or None)
+        if isinstance(x, ast.Call) and isinstance(x.func, ast.Attribute) and \
+                isinstance(x.func.value, ast.Name) and \
+                x.func.value.id == 'self' and not x.args and \
+                x.func.attr not in seen:
+            m = e.p.lookup_method(REPLY, x.func.attr)
+            if m is not None:
+                rets = [r for r in walk_own(m.node)
+                        if isinstance(r, ast.Return)]
+                return bool(rets) and all(
+                    r.value is None or is_code0(
+                        r.value, seen + (x.func.attr,), m.node)
+                    for r in rets)
         return False
     n_ret = 0
     for n in walk_own(fn):
